@@ -28,6 +28,24 @@ FINISH = dict(level="model_checking",
               rule="a case = one TLC-generated behaviour (base table, filter stack, access history) replayed on real row objects: the history, then a full sweep of all accesses forwards and backwards, on every row; or one (pipeline, second table) pair: the same filter objects fed the first table, the second table and the first again, full sweeps on the 2nd and 3rd application; distinct = distinct behaviours / pairs")
 
 ENC = {"id": (lambda x: x), "int": int, "inc": (lambda x: int(x) + 1), "str": str}
+# how the reader reads an undefined cell that is not spelled with the bare marker (spec: U(text, type)): None or the text.
+# Asked once per run, by position on a fresh lazy row (probe_undefined); every other access path must give the same value.
+READING = {}
+
+
+def probe_undefined(ctx):
+    from coba.pipes import ArffReader
+    for ty, decl, other in (("num", "numeric", "x"), ("nom", "{x,y,z}", "1")):
+        for text, cell in (("", ""), ("?", "'?'")):
+            lines = ["@relation p", "@attribute a %s" % decl, "@attribute b %s" % ("{x,y,z}" if ty == "num" else "numeric"), "@data", "%s,%s" % (cell, other)]
+            try:
+                got = list(ArffReader().filter(lines))[0][0]
+            except Exception as e:
+                got = e
+            if got is None or (type(got) is str and got == text): READING[(text, ty)] = got
+            else:
+                READING[(text, ty)] = None
+                ctx.violation("arff:undefined-cell:by-position", "a %s cell written %r is read by position as %r (the eager value is None or the text)" % (ty, cell, got), dict(lines=lines))
 
 
 # ------------------------------------------------------------------ value conversion (spec -> Python)
@@ -42,6 +60,7 @@ def conv(v):
     if t == "f": return float(v["v"])
     if t == "s": return v["v"]
     if t == "n": return None
+    if t == "u": return READING[(v["v"][0], v["v"][1])]
     if t == "c": return Categorical(v["v"][0], list(v["v"][1]))
     if t == "t": return tuple(v["v"])
     raise ValueError(t)
@@ -61,6 +80,9 @@ def same(got, exp):
     if t == "f": return type(got) is float and got == exp["v"]
     if t == "s": return type(got) is str and got == exp["v"]
     if t == "n": return got is None
+    if t == "u":
+        want = READING[(exp["v"][0], exp["v"][1])]
+        return got is None if want is None else (type(got) is str and got == want)
     if t == "c": return isinstance(got, Categorical) and str(got) == exp["v"][0] and list(got.levels) == list(exp["v"][1])
     if t == "t": return type(got) is tuple and list(got) == list(exp["v"]) and all(type(x) is int for x in got)
     return False
@@ -369,6 +391,44 @@ def replay(ctx, case, counts):
     return sorted(found.items())
 
 
+_G = {}
+PROCS = 8
+
+
+def _work(task):
+    """one slice of replays in a forked worker: [(key, disagreements)], accesses compared, unraisable reports"""
+    import sys
+    what, lo, hi = task
+    un = [0]
+    def hook(u): un[0] += 1
+    sys.unraisablehook = hook
+    counts = [0]; out = []
+    hists, stacks = _G["hists"], _G["stacks"]
+    for key in _G["todo"][lo:hi]:
+        if what == "hist":
+            h = hists[key]
+            c = dict(stacks[json.dumps([h["base"], h["stack"]], sort_keys=True)], hist=h["hist"])
+            out.append((key, replay(None, c, counts)))
+        else:
+            out.append((key, replay_reuse(stacks[key], counts)))
+    return out, counts[0], un[0]
+
+
+def parallel(what, todo, hists, stacks, counts, unraisable):
+    import multiprocessing
+    _G.update(todo=todo, hists=hists, stacks=stacks)
+    step = max(50, min(2000, len(todo) // (PROCS * 4) + 1))
+    tasks = [(what, lo, min(lo + step, len(todo))) for lo in range(0, len(todo), step)]
+    if len(tasks) <= 1: results = [_work(t) for t in tasks]
+    else:
+        with multiprocessing.get_context("fork").Pool(PROCS) as pool:
+            results = pool.map(_work, tasks, chunksize=1)
+    _G.clear()
+    for out, n, un in results:
+        counts[0] += n; unraisable[0] += un
+        for item in out: yield item
+
+
 def describe(case):
     return "%s | %s | history %s" % (case["base"]["name"], " > ".join(stage_name(s) for s in case["stack"]) or "(no filter)",
                                      [(h["acc"]["a"], h["acc"]["k"]) for h in case["hist"]])
@@ -391,6 +451,8 @@ def run(ctx):
     unraisable = [0]
     def hook(u): unraisable[0] += 1
     old_hook = sys.unraisablehook; sys.unraisablehook = hook
+    probe_undefined(ctx)
+    ctx.extra["undefined_cell_reading"] = {"%s %s" % (ty, "empty field" if text == "" else "quoted '?'"): repr(v) for (text, ty), v in sorted(READING.items())}
     for name, sub, sim, least in plans:
         cfg = tracecheck._cfg("LazyRows.cfg", sub, ctx.scratch, "lr_%s.cfg" % name)
         if sim: r = tlc.run("MC_LazyRows", cfg, ctx.scratch, workers=16, simulate=sim[0], depth=sim[1], seed=ctx.seed, timeout=3000, heap="16g")
@@ -409,18 +471,24 @@ def run(ctx):
         if not sim: ctx.exhaustive = True if ctx.exhaustive is None else ctx.exhaustive      # the bounded-exhaustive plans are complete
         keys = sorted(hists)
         orphans = 0
+        todo = []
         for key in keys:
             if key in seen: continue
             seen.add(key)
             h = hists[key]
             st = stacks.get(json.dumps([h["base"], h["stack"]], sort_keys=True))
             if st is None: orphans += 1; continue
-            c = dict(st, hist=h["hist"])
             total += 1
             ctx.case(key)
-            for sig, what in replay(ctx, c, counts):
+            todo.append(key)
+        # the replays are independent of one another: worker processes (forked, so they see the tables read above) take contiguous
+        # slices of the sorted keys; the results are taken in key order, so the run is the same as a sequential one
+        for key, res in parallel("hist", todo, hists, stacks, counts, unraisable):
+            c = dict(stacks[json.dumps([hists[key]["base"], hists[key]["stack"]], sort_keys=True)], hist=hists[key]["hist"])
+            for sig, what in res:
                 ctx.violation(sig, "%s: %s" % (describe(c), what), dict(base=c["base"], stack=c["stack"], hist=c["hist"]))
         # ---- the same filter objects on the first table, on a twin, on the first table again (once per pipeline) ----
+        todo = []
         for skey in sorted(stacks):
             if skey in seen_stacks: continue
             seen_stacks.add(skey)
@@ -428,7 +496,10 @@ def run(ctx):
             reuse[0] += 1; reuse[1] += len(rec.get("twins", []))
             for tw in rec.get("twins", []): ctx.case("reuse:" + skey + ":" + tw["base"]["name"])
             total += len(rec.get("twins", []))
-            for sig, what, twin in replay_reuse(rec, rcounts):
+            todo.append(skey)
+        for skey, res in parallel("reuse", todo, hists, stacks, rcounts, unraisable):
+            rec = stacks[skey]
+            for sig, what, twin in res:
                 ctx.violation(sig, "%s | %s: %s" % (rec["base"]["name"], " > ".join(stage_name(x) for x in rec["stack"]) or "(no filter)", what),
                               dict(base=rec["base"], stack=rec["stack"], second_table=twin))
         if not sim and not any(rec.get("twins") for rec in stacks.values()): raise RuntimeError("vacuous model run %s: no pipeline has a second table" % name)
